@@ -11,7 +11,7 @@ package lib
 //	                                             own header version); answer of the last
 //	brt    <T> <ver> <dialect> <hex>             parse (fresh) then Encode: "ok <dump> enc=<hex>"
 //	benc   <T> <ver> <dialect> <tree> [g=..]     build the value from the dump syntax, Encode, Parse back:
-//	                                             "enc=<hex> back=<answer of bparse>"
+//	                                             "enc=<hex> back=<answer of bparse> wf=1"
 //	time2bcd <hex of text> | bcd2time <hex> | bcd2dec <hex> | fill <hex of text> <n>
 //	decodeseq <frame1> ... <frameN>              ONE JTMessage decodes all frames; answer of the last
 //	jt1078 <hex> | jt1078seq <hex1> ... <hexN>   as in C17, the seq variant reuses ONE Packet
@@ -416,7 +416,9 @@ func BodyEncodeValue(t *BodyType, ver, dial int, dump string) string {
 	if p {
 		return "enc=panic"
 	}
-	return "enc=" + Hx(e) + " back=" + BodyParse(t, ver, dial, e)
+	// wf=1: the harness only ever sends values of the property's domain; the model answers with its own m_wf,
+	// so a domain predicate that is narrower than the generators' domain shows up as a mismatch
+	return "enc=" + Hx(e) + " back=" + BodyParse(t, ver, dial, e) + " wf=1"
 }
 
 // ---- frame / rtp on reused receivers
